@@ -10,12 +10,14 @@ package frt
 
 //@ func Pipe
 //@   props C14
+//@   inline-at-callsites
 //@   panics never
 //@   returns f(elem)
 //@   ensures once: calls(f) == old(calls(f)) + 1 && arg(f, old(calls(f))) == elem
 
 //@ func PipeUnit
 //@   props C14
+//@   inline-at-callsites
 //@   panics never
 //@   ensures once: calls(f) == old(calls(f)) + 1 && arg(f, old(calls(f))) == elem
 
@@ -63,17 +65,20 @@ package frt
 
 //@ func IfElse
 //@   props C14
+//@   inline-at-callsites
 //@   panics never
 //@   returns ite(cond, tbody(), fbody())
 //@   ensures one-branch: calls(tbody) == old(calls(tbody)) + ite(cond, 1, 0) && calls(fbody) == old(calls(fbody)) + ite(cond, 0, 1)
 
 //@ func IfElseUnit
 //@   props C14
+//@   inline-at-callsites
 //@   panics never
 //@   ensures one-branch: calls(tbody) == old(calls(tbody)) + ite(cond, 1, 0) && calls(fbody) == old(calls(fbody)) + ite(cond, 0, 1)
 
 //@ func IfOnly
 //@   props C14
+//@   inline-at-callsites
 //@   panics never
 //@   ensures one-or-none: calls(tbody) == old(calls(tbody)) + ite(cond, 1, 0)
 
